@@ -1375,28 +1375,33 @@ evbuffer_remove_buffer(struct evbuffer *src, struct evbuffer *dst,
 
 	/* we know that there is more data in the src buffer than
 	 * we want to read, so we manually drain the chain */
-	/* Make room in dst first (so that the copy below cannot fail), then
-	 * take the bytes out of src *before* handing them to dst:
+	/* Take the bytes out of src *before* handing them to dst:
 	 * evbuffer_add() runs dst's callbacks, and those may come back to src
 	 * (stacked bufferevent filters do), which must not still count bytes
-	 * that have already been copied. */
-	if (evbuffer_expand(dst, datlen) == 0) {
+	 * that have already been copied.  evbuffer_add() fails only before it
+	 * has changed dst or run any callback, so on failure the bytes can
+	 * simply be put back. */
+	{
 		unsigned char *tail = chain->buffer + chain->misalign;
 		chain->misalign += datlen;
 		chain->off -= datlen;
-		nread += datlen;
-		src->total_len -= nread;
-		src->n_del_for_cb += nread;
+		src->total_len -= nread + datlen;
+		src->n_del_for_cb += nread + datlen;
 		/* You might think we would want to increment dst->n_add_for_cb
 		 * here too.  But evbuffer_add already takes care of that. */
-		evbuffer_add(dst, tail, datlen);
-	} else if (nread == 0) {
-		/* nothing was moved at all */
-		result = -1;
-		goto done;
-	} else {
-		src->total_len -= nread;
-		src->n_del_for_cb += nread;
+		if (evbuffer_add(dst, tail, datlen) == 0) {
+			nread += datlen;
+		} else {
+			chain->misalign -= datlen;
+			chain->off += datlen;
+			src->total_len += datlen;
+			src->n_del_for_cb -= datlen;
+			if (nread == 0) {
+				/* nothing was moved at all */
+				result = -1;
+				goto done;
+			}
+		}
 	}
 
 	if (nread) {
